@@ -7,7 +7,7 @@
    solver Brute it is PROVED on a decidable syntactic class (C05_brute_contract), which makes the C05_brute_enum_*
    theorems unconditional. *)
 From Coq Require Import QArith Qabs List.
-From Aldy Require Import Base Consts Lp Enum Brute LpProofs EnumProofs BruteProofs Consts_here Consts_wf Exprs_lp Tied_lp.
+From Aldy Require Import Base Consts Lp Enum Brute LpProofs EnumProofs BruteProofs Consts_here Consts_wf Exprs_lp Tied_lp LpReadbackProofs.
 Import ListNotations.
 Open Scope Q_scope.
 
@@ -346,3 +346,32 @@ Theorem C05_tie_cut : forall vv, r_rhs (cut_row vv) == lp_cut_rhs (inZ (Z.of_nat
 Proof. exact lp_cut_tied. Qed.
 Goal True. idtac "ASSUME C05_tie_cut". Abort.
 Print Assumptions C05_tie_cut.
+
+(* ================================================================= typed read-back (lpinterface.py:317-329, 339-340)
+   getValue returns a bool - and solutions() lists the variable among the active names and cuts on it - exactly when OR-tools
+   reports the variable integral and its bounds pass the translated test.  With integral bounds and 0 < precision <= 1 the test
+   holds iff the bounds ARE 0 and 1; so on every model whose general integer variables have integral bounds other than [0, 1]
+   the variables read as binaries are Lp.binaries and the names collected at a point are Lp.active (what every C05_enum_*
+   theorem speaks about). *)
+Theorem C05_tie_reads_binary : forall prec lb ub, reads_binary prec lb ub = lp_reads_binary lb ub prec.
+Proof. exact lp_reads_binary_tied. Qed.
+Goal True. idtac "ASSUME C05_tie_reads_binary". Abort.
+Print Assumptions C05_tie_reads_binary.
+
+Theorem C05_reads_binary_exact : forall prec lb ub (zl zu : Z),
+  0 < prec -> prec <= 1 -> lb == inject_Z zl -> ub == inject_Z zu ->
+  (reads_binary prec lb ub = true <-> zl = 0%Z /\ zu = 1%Z).
+Proof. exact reads_binary_exact. Qed.
+Goal True. idtac "ASSUME C05_reads_binary_exact". Abort.
+Print Assumptions C05_reads_binary_exact.
+
+Theorem C05_read_active_is_active : forall prec m a, 0 < prec -> prec <= 1 -> int_kinds_proper m ->
+  read_binaries prec m = binaries m /\ read_active prec m a = active m a.
+Proof. intros prec m a P0 P1 H. split; [exact (read_binaries_are_binaries prec m P0 P1 H) | exact (read_active_is_active prec m a P0 P1 H)]. Qed.
+Goal True. idtac "ASSUME C05_read_active_is_active". Abort.
+Print Assumptions C05_read_active_is_active.
+
+Theorem C05_here_precision_ok : 0 < c_solution_precision here /\ c_solution_precision here <= 1.
+Proof. exact here_precision_ok. Qed.
+Goal True. idtac "ASSUME C05_here_precision_ok". Abort.
+Print Assumptions C05_here_precision_ok.
